@@ -3,9 +3,12 @@ import math
 
 from harness import dtwgen
 
-COQ_FILES = ["theories/BandTie.v", "theories/CBand.v", "theories/Engines.v", "props/C02.v"]
+COQ_FILES = ["theories/BandTie.v", "theories/CBand.v", "theories/Engines.v", "gen/Gen_cdist.v", "theories/CLang.v",
+             "theories/CDistCanon.v", "theories/CDistTie.v", "theories/CDistProofs.v", "theories/CDistSpec.v", "props/C02.v"]
 THEOREMS = [("DVProps.C02", "C02_off_encodings_commute"), ("DVProps.C02", "C02_engines_same_model"),
-            ("DVProps.C02", "C02_mld_zero_refuted"), ("DVProps.C02", "C02_c_kernels_same_band_and_buffer")]
+            ("DVProps.C02", "C02_mld_zero_refuted"), ("DVProps.C02", "C02_c_kernels_same_band_and_buffer"),
+            ("DVProps.C02", "C02_c_dtw_distance_as_written"), ("DVProps.C02", "C02_c_dtw_distance_euclidean_as_written"),
+            ("DVProps.C02", "C02_c_dtw_distance_ndim_as_written"), ("DVProps.C02", "C02_c_dtw_distance_ndim_euclidean_as_written")]
 TRUSTED_BASE = [
     "Coq 8.16.1 kernel (no native_compute)",
     "tools/translate_c.py: ldiff, dl, dl_window, ldiff_window, maxj, minj, skip, length of the four dtw_distance* "
@@ -15,7 +18,12 @@ TRUSTED_BASE = [
     "settings decoding (DTWSettings.c_kwargs, dtw_cc.pyx DTWSettings.__init__, C '== 0 means off' tests) is "
     "hand-modelled in theories/Engines.v and tied by correspondence",
     "extraction (ExtrOcamlBasic only) + driver.ml; harness/props/C02.py",
-    "the loop skeleton of dtw_distance* (dd_dtw.c) is tied by correspondence only",
+    "tools/cfun.py (C-to-Gallina translator for whole functions; idx_t arithmetic over Z without overflow, seq_t over "
+    "Z + infinity without rounding or NaN; malloc = a block of the requested size with arbitrary content; the failure "
+    "branch of malloc, asserts and DTWDEBUG blocks are dropped): the four dtw_distance* kernels are regenerated WHOLE "
+    "(Gen_cdist.v) and PROVED equal to the specification value cut at the bound (C02_c_dtw_distance*_as_written); the "
+    "translator is validated by running the extracted definitions against the compiled kernels on struct-level inputs "
+    "(site ckern); the functions the kernels call (euclidean_distance_squared, ub_euclidean*) are oracle parameters",
 ]
 ASSUMPTIONS = ["integer-valued stream: both engines compute exactly, equality is required bit-for-bit; "
                "float stream: agreement within 4 ulps (rounding itself is not modelled)"]
